@@ -21,6 +21,8 @@ type PrintOpts struct {
 	TrailComma int
 	// KeepAssignLHS: never parenthesise the target of an assignment redundantly.
 	KeepAssignLHS bool
+	// ForceAssignLHS: always parenthesise the target of an assignment redundantly.
+	ForceAssignLHS bool
 	// AltQuotes: string literals may be spelled with single quotes.
 	AltQuotes bool
 	// Stats
@@ -146,7 +148,7 @@ func emit(out *[]string, parent, n *Node, pos int, o *PrintOpts) {
 		isTarget := parent != nil && parent.K == KAssign && pos == posLeft
 		if !(isTarget && o.KeepAssignLHS) {
 			single := n.Level() >= LevelPostfix
-			if (single && o.chance(o.AtomParens)) || (!single && o.chance(o.NodeParens)) {
+			if (isTarget && o.ForceAssignLHS) || (single && o.chance(o.AtomParens)) || (!single && o.chance(o.NodeParens)) {
 				extra = 1
 				if o.chance(15) {
 					extra = 2
